@@ -368,6 +368,37 @@ fn macro_corpus() -> Vec<(&'static str, ModelBuilder, &'static str)> {
             "max a + b - 0.5 * c\ns.t.\n    a >= -3\n    a + b <= 7.5\n    -a + 2 * b >= c / 2\ndefine\n    a as Real\n    b as NonNegativeReal\n    c as IntegerRange(0, 5)\n    unused as Real(1, 2)\n",
         ));
     }
+    {
+        // every arm of vars!: scalar and indexed, each domain form
+        let mut model = ModelBuilder::new();
+        vars! { model =>
+            sb: bool;
+            sr: real;
+            srb: real(-3.0, 4.0);
+            sn: nonneg;
+            snb: nonneg(1.0, 6.0);
+            si: int(-2, 5);
+            ab[2]: bool;
+            ar[2]: real;
+            arb[2]: real(-3.0, 4.0);
+            an[2]: nonneg;
+            anb[2]: nonneg(1.0, 6.0);
+            ai[2]: int(-2, 5);
+        };
+        let mb = model
+            .minimize(sr + srb + sn + snb + si + ar[0] + ar[1] + arb[0] + arb[1] + an[0] + an[1] + anb[0] + anb[1] + ai[0] + ai[1] + sb + ab[0] + ab[1])
+            .with(constraint!(sr >= -7.5))
+            .with(constraint!(ar[0] >= -1.5))
+            .with(constraint!(ar[1] >= -2.5))
+            .with(constraint!(low: an[0] - an[1] >= -3.0))
+            .with(constraint!(an[0] + an[1] >= -4.0))
+            .with(constraint!(sn + srb >= -5.0));
+        v.push((
+            "every-vars-arm",
+            mb,
+            "min sr + srb + sn + snb + si + ar_0 + ar_1 + arb_0 + arb_1 + an_0 + an_1 + anb_0 + anb_1 + ai_0 + ai_1 + sb + ab_0 + ab_1\ns.t.\n    sr >= -7.5\n    ar_0 >= -1.5\n    ar_1 >= -2.5\n    low: an_0 - an_1 >= -3\n    an_0 + an_1 >= -4\n    sn + srb >= -5\ndefine\n    sb as Boolean\n    sr as Real\n    srb as Real(-3, 4)\n    sn as NonNegativeReal\n    snb as NonNegativeReal(1, 6)\n    si as IntegerRange(-2, 5)\n    ab_0, ab_1 as Boolean\n    ar_0, ar_1 as Real\n    arb_0, arb_1 as Real(-3, 4)\n    an_0, an_1 as NonNegativeReal\n    anb_0, anb_1 as NonNegativeReal(1, 6)\n    ai_0, ai_1 as IntegerRange(-2, 5)\n",
+        ));
+    }
     v
 }
 
@@ -875,7 +906,7 @@ impl Driver for C16 {
         Some((format!("door-never-returns({})", c.kind), format!("a front door did not return: worker ended with {}", c.kind)))
     }
     fn rule(&self) -> String {
-        "random models (G-model strata: mixed, affine, piecewise, logic, derived bounds, tightened discrete; bounded domains; 30% with a declared-but-unused variable) are expressed (A) through the builder with operator overloads, (A2) through enum constructors and the typed overloads (Var op f64 / i32, f64 op Var, Var & Var, bool constants, !Var, -Var, .implies/.iff) with a random call order (objective first/last, with vs split with_all, an overridden decoy objective, default objective), (T0) as source text in a random style with constants in a where-section, (T1) the same text with those constants supplied through the API as Number / Integer / PositiveInteger, (P) through PipeRunner presets and (R) through RoocSolver; four hand-written models built with the vars!/constraint!/expr! macros are compared with their text spellings at every run. Oracles: A vs A2 identical models and linear models; T0 vs T1 identical expression trees and linear models; A vs T0 row-for-row identical linear models when the serialized expression trees are identical, otherwise equal rows after harmless normalisation or equal meaning on the declared variables (certified aux MILP at directed points); pipe LinearModel stage identical to direct compilation; the verdict and the optimal value (1e-6) of seven solve doors agree; handle values == values by name, foreign handles resolve to None, unused variables resolve inside their domain, the point read through the handles is feasible under the harness's exact evaluator and value() is the objective there, eval() of every model expression equals the exact evaluator (1e-9). non-trivial = distinct model whose builder and text linear models were compared".into()
+        "random models (G-model strata: mixed, affine, piecewise, logic, derived bounds, tightened discrete; bounded domains; 30% with a declared-but-unused variable) are expressed (A) through the builder with operator overloads, (A2) through enum constructors and the typed overloads (Var op f64 / i32, f64 op Var, Var & Var, bool constants, !Var, -Var, .implies/.iff) with a random call order (objective first/last, with vs split with_all, an overridden decoy objective, default objective), (T0) as source text in a random style with constants in a where-section, (T1) the same text with those constants supplied through the API as Number / Integer / PositiveInteger, (P) through PipeRunner presets and (R) through RoocSolver; five hand-written models built with the vars!/constraint!/expr! macros (one of them declares a variable through every arm of vars!, scalar and indexed) are compared with their text spellings at every run. Oracles: A vs A2 identical models and linear models; T0 vs T1 identical expression trees and linear models; A vs T0 row-for-row identical linear models when the serialized expression trees are identical, otherwise equal rows after harmless normalisation or equal meaning on the declared variables (certified aux MILP at directed points); pipe LinearModel stage identical to direct compilation; the verdict and the optimal value (1e-6) of seven solve doors agree; handle values == values by name, foreign handles resolve to None, unused variables resolve inside their domain, the point read through the handles is feasible under the harness's exact evaluator and value() is the objective there, eval() of every model expression equals the exact evaluator (1e-9). non-trivial = distinct model whose builder and text linear models were compared".into()
     }
     fn thresholds(&self, tier: Tier) -> Thresholds {
         let s = tier.pick(4, 60);
@@ -893,8 +924,8 @@ impl Driver for C16 {
                 ("unused-variable-inside-domain", 1000 * s),
                 ("eval-agrees", 20000 * s),
                 ("semantics:objective-agrees", 3000 * s),
-                ("macro-model-matches-text", 4),
-                ("macro-model-solves-alike", 4),
+                ("macro-model-matches-text", 5),
+                ("macro-model-solves-alike", 5),
             ],
             min_nontrivial: 8000 * s,
         }
